@@ -63,7 +63,14 @@ theorem operands_no_wait (k : ActKind) (ops : Operands) (h : PlainOperands ops) 
 groups and locations) contains exactly one `WAIT`: the delay is requested once for the whole
 statement, not once per operand. -/
 theorem C01_and_single_wait (k : ActKind) (ops : Operands) (h : PlainOperands ops) :
-    countWait (Gen.genStmt (.action k ops)) = 1 := by
+    countWait (Gen.genStmt (.action k true ops)) = 1 := by
+  simp only [Gen.genStmt, countWait_append, operands_no_wait k ops h]
+  cases k <;> simp [Gen.ins, countWait]
+
+/-- the same statement written inside a matrix block has no `WAIT` of its own: the block is one
+command on the time line (`parse.py: _action`) -/
+theorem C01_no_wait_in_matrix (k : ActKind) (ops : Operands) (h : PlainOperands ops) :
+    countWait (Gen.genStmt (.action k false ops)) = 0 := by
   simp only [Gen.genStmt, countWait_append, operands_no_wait k ops h]
   cases k <;> simp [Gen.ins, countWait]
 
